@@ -84,6 +84,7 @@ func (r *Run) callVF(caller *frame, pos token.Pos, fn *ssa.Function, args []Valu
 		r.krBound[sec], r.krBound[ms], r.krBound[totalMs] = maxS, 999, maxS*1000+999
 		r.kr[d] = krInfo{div: map[int64]*Term{1000000000: sec, 1000000: totalMs},
 			rem: map[int64]*Term{1000000000: sub, 1000000: ns}}
+		r.durOf[d] = durInfo{sec: sec, sub: sub, maxS: maxS}
 		r.kr[sub] = krInfo{div: map[int64]*Term{1000000: ms, 1000000000: mkBV(64, 0)}, rem: map[int64]*Term{1000000: ns, 1000000000: sub}}
 		return d
 	case "Defined":
@@ -168,6 +169,15 @@ func (r *Run) callVF(caller *frame, pos token.Pos, fn *ssa.Function, args []Valu
 		})
 		r.sched.settle()
 		return mkBool(!done)
+	case "Leaked":
+		r.sched.settle()
+		out := ""
+		for _, g := range r.sched.gs {
+			if g.state != gDone && g != r.sched.cur {
+				out += fmt.Sprintf("[g%d %s: %s] ", g.id, g.callTop, g.waitOn)
+			}
+		}
+		return constStr(out)
 	case "Advance":
 		r.advance(args[0].(*Term))
 		r.sched.settle()
